@@ -146,6 +146,12 @@ class Check:
         self.proof = {"obligations": 0, "discharged": 0, "checker_cmd": "", "assumptions": [], "theorems": []}
         self.driver = None
         self.thorough = tier == "thorough"
+        self.fallback = []            # units whose translator failed closed: snapshot model + deep correspondence
+
+    @property
+    def deep(self):
+        """Thorough volume: asked for, or forced because a translator fell back to the snapshot."""
+        return self.thorough or bool(self.fallback)
 
     # ------------------------------------------------------------------ build
     def prepare(self):
@@ -168,7 +174,8 @@ class Check:
         self.regen_status = json.loads(out[out.index("{"):])
         for u, st in self.regen_status.items():
             if st["status"] == "fallback":
-                self.broken.append(("translator", u, st["reason"]))
+                # DESIGN 2.2: the unit is tied by correspondence with the committed snapshot, at thorough volume
+                self.fallback.append((u, st["reason"]))
 
     def _make(self, targets):
         return sh(["timeout", "1500", "make", "-j16"] + targets, cwd=COQ, timeout=1600)
@@ -179,7 +186,7 @@ class Check:
             rc, out = self._make([f"gen/{u}.vo"])
             if rc:
                 snap = os.path.join(COQ, "gen_snapshot", u + ".v")
-                self.broken.append(("translator", u, "generated model rejected by Coq: " + out[-300:]))
+                self.fallback.append((u, "generated model rejected by Coq: " + out[-300:]))
                 self.regen_status[u] = {"status": "fallback", "reason": "generated model rejected by Coq",
                                         "changed_vs_snapshot": True}
                 project.write_if_changed(os.path.join(COQ, "gen", u + ".v"), open(snap).read())
@@ -333,6 +340,7 @@ class Check:
                 "property_theorems": self.proof["theorems"],
                 "closure_files": self.proof.get("files", []),
                 "model_regeneration": self.regen_status,
+                "translator_fallbacks": [list(f) for f in self.fallback],
                 "broken_obligations": [list(b) for b in self.broken],
                 "known_findings_printed": self.notes,
                 **self.cov,
